@@ -736,6 +736,13 @@ func c11Run(s c11Scn) (c11Obs, []Mon) {
 			mons = append(mons, Mon{Sig: "C11:webhook-allowed-immutable-change", Why: "the webhook allowed an update that changes group, kind or plural"})
 		}
 	}
+	// every derived CRD must have passed the API server's dry run before the webhook allows
+	serverWouldReject := func() bool {
+		return s.Server.RejectXR || (s.Server.RejectClaim && s.Xrd.ClaimNames != nil)
+	}
+	if serverWouldReject() && (obs.AdmitCreate == "allowed" || obs.AdmitUpdate == "allowed") {
+		mons = append(mons, Mon{Sig: "C11:webhook-allowed-rejected-crd", Why: "the webhook allowed an XRD although the API server refuses the dry run of one of its CRDs"})
+	}
 	if obs.AdmitCreate == "allowed" && s.Xrd.ClaimNames != nil && c11ClaimCollision(s.Xrd) {
 		mons = append(mons, Mon{Sig: "C11:webhook-allowed-claim-collision", Why: "the webhook allowed an XRD whose claim names collide with the composite's"})
 	}
@@ -817,6 +824,15 @@ func init() {
 				c11Fill(s.Old)
 				obs, mons := c11Run(s)
 				c.Emit(s, obs, mons, "corpus/"+c11Class(s, obs))
+			}
+		}
+		// the deterministic sweep runs once (in the shard that also replays the corpus, or when run by hand)
+		if c.N > 0 && (len(c.Corpus) > 0 || c.Seed%1000 == 0) {
+			for _, s := range c11Sweep() {
+				c11Fill(&s.Xrd)
+				c11Fill(s.Old)
+				obs, mons := c11Run(s)
+				c.Emit(s, obs, mons, "sweep/"+c11Class(s, obs))
 			}
 		}
 		for i := 0; i < c.N; i++ {
